@@ -56,6 +56,24 @@ def features(b):
     return f
 
 
+def spans_seconds(b):
+    """the shape in which a flushed zone mixes events below and above the mark: events of two different seconds are
+    materialised (REMEMBER / SHOW) from memory, later events carry a higher second, and another SHOW follows"""
+    seen_ts, marked, mark_ts, later = set(), False, None, False
+    for x in b:
+        if x["a"] == "store":
+            if marked and mark_ts is not None and x["ts"] > mark_ts:
+                later = True
+            elif not marked:
+                seen_ts.add(x["ts"])
+        elif x["a"] in ("remember", "show"):
+            if later and x["a"] == "show":
+                return True
+            if len(seen_ts) >= 2 and not marked:
+                marked, mark_ts = True, max(seen_ts)
+    return False
+
+
 def shard_contexts(bindir):
     """contexts that the router sends to shard 0 and shard 1 (observed, not computed)"""
     root = core.WORK / "c14" / "probe"
@@ -80,7 +98,7 @@ def shard_contexts(bindir):
     return by
 
 
-def lifetimes(beh, ctxs, rnd, variant):
+def lifetimes(beh, ctxs, rnd, variant, filtered=True):
     """vdrive lifetimes for one behaviour; layout operations (no-ops for the model) are inserted
     between steps according to `variant`."""
     lts = [[{"op": "cmd", "text": 'DEFINE ev FIELDS { k: "int", x: "int" }', "tag": ["define"]}]]
@@ -101,16 +119,25 @@ def lifetimes(beh, ctxs, rnd, variant):
             #  leave null cells behind - open finding C03-null-cells-after-read-during-segment-write)
             cur.append({"op": "flush_wait"})
         elif a == "remember":
-            cur.append({"op": "cmd", "text": "REMEMBER QUERY ev WHERE x >= 1 AS m1", "tag": [i, "remember"]})
+            # the remembered query with a payload filter (field selectors) or without one (index selectors / segment guard)
+            qtext = "QUERY ev WHERE x >= 1" if filtered else "QUERY ev"
+            other = "QUERY ev" if filtered else "QUERY ev WHERE x >= 1"
+            cur.append({"op": "cmd", "text": f"REMEMBER {qtext} AS m1", "tag": [i, "remember"]})
             # a second REMEMBER under the same name must be rejected AND harmless: a retry of the same query, or another query
-            again = "REMEMBER QUERY ev WHERE x >= 1 AS m1" if i % 2 == 0 else "REMEMBER QUERY ev AS m1"
+            again = f"REMEMBER {qtext} AS m1" if i % 2 == 0 else f"REMEMBER {other} AS m1"
             cur.append({"op": "cmd", "text": again, "tag": [i, "remember_again"]})
         elif a == "show":
+            last_mat = max([j for j, y in enumerate(beh[:i]) if y["a"] in ("remember", "show")], default=None)
+            stored_since = last_mat is not None and any(y["a"] == "store" for y in beh[last_mat + 1:i])
+            if variant == "flush_before_show" and stored_since:
+                # everything stored since the last SHOW reaches a segment before the delta query runs: its zones mix
+                # events below and above the mark (the per-segment / per-zone guards of the delta must keep them)
+                cur.append({"op": "cmd", "text": "FLUSH", "tag": [i, "flush"]})
             cur.append({"op": "cmd", "text": "SHOW m1", "tag": [i, "show"], "timeout_ms": 15000})
-            cur.append({"op": "cmd", "text": "QUERY ev WHERE x >= 1", "tag": [i, "live"]})
+            cur.append({"op": "cmd", "text": "QUERY ev WHERE x >= 1" if filtered else "QUERY ev", "tag": [i, "live"]})
             cur.append({"op": "cmd", "text": "SHOW m1", "tag": [i, "show_again"], "timeout_ms": 15000})
         # layout operations between steps
-        if variant != "plain" and a in ("store", "show") and rnd.random() < 0.35:
+        if variant in ("flush", "layout") and a in ("store", "show") and rnd.random() < 0.35:
             op = rnd.choice(["flush", "flush", "compact", "restart"] if variant == "layout" else ["flush"])
             if op == "flush":
                 cur.append({"op": "cmd", "text": "FLUSH", "tag": [i, "flush"]})
@@ -154,21 +181,28 @@ def run(tier):
             chosen.append(b)
             covered |= f
     limit = 45 if q else 500
+    spanning = [b for b in behs if spans_seconds(b)]
+    for b in spanning[:8 if q else 80]:
+        if b not in chosen:
+            chosen.append(b)
     for b in behs:
         if len(chosen) >= limit:
             break
         if b not in chosen:
             chosen.append(b)
     ctxs = shard_contexts(bindir)
-    core.log(f"[C14] {len(behs)} histories from TLC, {len(chosen)} replayed")
+    core.log(f"[C14] {len(behs)} histories from TLC, {len(chosen)} replayed, {sum(1 for b in chosen if spans_seconds(b))} of them materialise two seconds and store later ones")
     for bi, beh in enumerate(chosen):
-        variant = ["plain", "flush", "layout"][bi % 3]
-        lts = lifetimes(beh, ctxs, rnd, variant)
+        variant = "flush_before_show" if spans_seconds(beh) and bi % 2 == 0 else ["plain", "flush", "layout", "flush_before_show"][bi % 4]
+        filtered = (bi // 2) % 2 == 0
+        lts = lifetimes(beh, ctxs, rnd, variant, filtered)
         root = core.WORK / "c14" / f"b{bi}"
         if root.exists():
             shutil.rmtree(root)
         root.mkdir(parents=True)
         ff, epz = [(3, 1), (2, 2), (1, 4), (2, 3)][bi % 4]      # zones of 1-4 rows, so that a zone can span old and new seconds
+        if variant == "flush_before_show":
+            ff, epz = 100, [4, 8][(bi // 4) % 2]                 # no automatic rotation: materialised from memory, flushed later
         cfg = {"root": str(root / "db"), "fill_factor": ff, "event_per_zone": epz, "shards": 2, "k": 2}
         by = {}
         failed = None
@@ -181,7 +215,7 @@ def run(tier):
                 t = o.get("tag")
                 if isinstance(t, list) and len(t) == 2 and isinstance(t[0], int):
                     by[(t[0], t[1])] = o
-        rep = {"behaviour": beh, "variant": variant, "fill_factor": ff, "event_per_zone": epz}
+        rep = {"behaviour": beh, "variant": variant, "fill_factor": ff, "event_per_zone": epz, "remembered_query_has_filter": filtered}
         stats["histories"] += 1
         if failed:
             chk.violation(failed, rep)
@@ -239,7 +273,7 @@ def run(tier):
                        "back to back and with the as-built model; non-trivial = at least two rows")
     chk.cov["stats"] = dict(stats)
     chk.assumptions += ["clocks are injected (STORE second, id millisecond); 'accepted earlier, applied later' is produced by scripting the two clocks apart",
-                        "one remembered selection query (WHERE x >= 1) per history; two shards"]
+                        "one remembered selection query per history (with a payload filter or without, alternating); two shards"]
     return chk.finish()
 
 
